@@ -205,7 +205,7 @@ static void prog_check(const Json& c, Out& o) {
     run_program(p, o);
 }
 static void prog_gen(Ctx& ctx) {
-    ctx.rc("programs", ctx.by_tier(3200, 32000), [&]() {
+    ctx.rc("programs", ctx.by_tier(12000, 64000), [&]() {
         int T = pick(2, pick(0, 3) == 0 ? 16 : 5);
         int nshared = pick(0, 6);
         std::vector<int> shared;
